@@ -958,6 +958,8 @@ Proof.
   - eapply wf_for_params; eauto.
   - destruct (valid_par h p); [|discriminate]. injection H as <-.
     apply (wf_shape h); [reflexivity|simpl; symmetry; apply upd_length|exact Hwf].
+  - destruct (valid_par h p); [|discriminate]. injection H as <-.
+    apply (wf_shape h); [reflexivity|simpl; symmetry; apply upd_length|exact Hwf].
 Qed.
 
 (* every heap built by events satisfies the invariant *)
@@ -1262,4 +1264,79 @@ Proof.
     destruct (height_child h N m k c Hk Hch) as (kc & Hkc & Hlt).
     rewrite (height_mono h N c kc Hkc). exact Hlt.
   - intro m. destruct (height_f (length (mods h)) h m) as [k|] eqn:E; [|lia]. eapply height_le; eauto.
+Qed.
+
+(* ================================================================== freeze / unfreeze are absolute, not relative to history *)
+Lemma parameters_f_mods h h' : mods h = mods h' -> forall f m, parameters_f f h m = parameters_f f h' m.
+Proof.
+  intro E. induction f as [|f IH]; intro m; [reflexivity|].
+  rewrite !parameters_unfold, <- E. destruct (nth_error (mods h) m) as [M|]; [|reflexivity].
+  rewrite (map_ext _ _ IH). reflexivity.
+Qed.
+
+Lemma parameters_mods h h' m : mods h = mods h' -> parameters h m = parameters h' m.
+Proof. intro E. unfold parameters, fuel_of. rewrite <- E. apply parameters_f_mods. exact E. Qed.
+
+Lemma filter_all_true {A} (f : A -> bool) l : (forall x, In x l -> f x = true) -> filter f l = l.
+Proof.
+  induction l as [|a l IH]; intro H; [reflexivity|]. simpl. rewrite (H a (or_introl eq_refl)).
+  f_equal. apply IH. intros x Hx. apply H. right. exact Hx.
+Qed.
+
+Lemma filter_all_false {A} (f : A -> bool) l : (forall x, In x l -> f x = false) -> filter f l = [].
+Proof.
+  induction l as [|a l IH]; intro H; [reflexivity|]. simpl. rewrite (H a (or_introl eq_refl)).
+  apply IH. intros x Hx. apply H. right. exact Hx.
+Qed.
+
+Lemma sum_sizes_pars h h' l :
+  (forall p, option_map p_size (nth_error (pars h') p) = option_map p_size (nth_error (pars h) p)) ->
+  sum_sizes h' l = sum_sizes h l.
+Proof.
+  intro H. induction l as [|p l IH]; [reflexivity|]. rewrite !sum_sizes_cons, IH. f_equal.
+  unfold size_of. specialize (H p). destruct (nth_error (pars h') p), (nth_error (pars h) p); simpl in H; congruence.
+Qed.
+
+(* After m.freeze() (b = false) / m.unfreeze() (b = true), on ANY cycle-free heap built by events — whatever freezes,
+   unfreezes, manual requires_grad flips, attachments or replacements happened before — every parameter owned by a module
+   reachable from m has requires_grad = b, and num_params splits accordingly. *)
+Theorem freeze_unfreeze_absolute h m (b : bool) :
+  wf h -> acyclic h -> m < length (mods h) ->
+  exists h' ps,
+    step h (if b then Unfreeze m else Freeze m) = Some h' /\ mods h' = mods h /\
+    parameters h' m = Some ps /\
+    (forall m' p, reach h m m' -> owns h m' p -> option_map p_req (nth_error (pars h') p) = Some b) /\
+    num_params h' m All = Some (sum_sizes h ps) /\
+    num_params h' m Trainable = Some (if b then sum_sizes h ps else 0) /\
+    num_params h' m NonTrainable = Some (if b then 0 else sum_sizes h ps).
+Proof.
+  intros Hwf Hac Hv.
+  destruct (parameters_spec h m Hwf Hac Hv) as (raw & ps0 & _ & Hps0 & _ & _ & Hin & _).
+  destruct (param_ops_spec h m (if b then PUnfreeze else PFreeze) Hwf Hac Hv) as (ps & h' & Hps & Hstep & Hm & Hl & Hn).
+  rewrite Hps0 in Hps. injection Hps as <-.
+  assert (Hfun : pop_fun (if b then PUnfreeze else PFreeze) = set_req b) by (destruct b; reflexivity).
+  assert (Hstep' : step h (if b then Unfreeze m else Freeze m) = Some h') by (destruct b; exact Hstep).
+  assert (Hreq : forall p, In p ps0 -> option_map p_req (nth_error (pars h') p) = Some b).
+  { intros p Hp. rewrite (proj1 (Hn p) Hp), Hfun.
+    apply Hin in Hp. destruct Hp as (m' & Hr & (M & HM & Hown)).
+    pose proof (proj2 (proj2 (proj2 (Hwf m' M HM))) p Hown) as Hlt.
+    destruct (nth_error (pars h) p) as [P|] eqn:EP; [reflexivity|]. apply nth_error_None in EP. lia. }
+  assert (Hsize : forall p, option_map p_size (nth_error (pars h') p) = option_map p_size (nth_error (pars h) p)).
+  { intro p. destruct (in_dec Nat.eq_dec p ps0) as [Hp|Hp].
+    - rewrite (proj1 (Hn p) Hp), Hfun. destruct (nth_error (pars h) p); reflexivity.
+    - rewrite (proj2 (Hn p) Hp). reflexivity. }
+  assert (Hps' : parameters h' m = Some ps0) by (rewrite <- (parameters_mods h h' m (eq_sym Hm)); exact Hps0).
+  assert (Htr : forall p, In p ps0 -> trainable h' p = b).
+  { intros p Hp. specialize (Hreq p Hp). unfold trainable. destruct (nth_error (pars h') p); simpl in Hreq; [congruence|discriminate]. }
+  exists h', ps0. split; [exact Hstep'|]. split; [exact Hm|]. split; [exact Hps'|]. split.
+  { intros m' p Hr Ho. apply Hreq. apply Hin. eauto. }
+  destruct (num_params_spec h' m ps0 Hps') as (NA & NT & NN & _).
+  rewrite NA, NT, NN, (sum_sizes_pars h h' ps0 Hsize). split; [reflexivity|].
+  destruct b.
+  - rewrite filter_all_true by exact Htr.
+    rewrite filter_all_false by (intros p Hp; rewrite (Htr p Hp); reflexivity).
+    rewrite (sum_sizes_pars h h' ps0 Hsize). split; reflexivity.
+  - rewrite filter_all_false by exact Htr.
+    rewrite filter_all_true by (intros p Hp; rewrite (Htr p Hp); reflexivity).
+    rewrite (sum_sizes_pars h h' ps0 Hsize). split; reflexivity.
 Qed.
